@@ -11,14 +11,15 @@ import (
 //
 // Mostly well-formed blocks over a small key alphabet (so that keys are overwritten and the
 // normalisation of ds.NewKey is exercised), a separate supply of malformed transactions, and
-// b-only operations interleaved.  Half of the scenarios never finalize, so that violations other
-// than the known finalize defect are not masked by it.
+// b-only operations interleaved.  SetFinal is exercised in four scenarios out of five (often before the
+// first execution: the timing that used to separate the two instances until /repo 511b618); every
+// fifth scenario never finalizes.
 
 var wsPool = []string{"", "", "", " ", "\t", "\n", " \r\n", "\v\f", "\u00a0", "\u0085", "\u1680", "\u2000", "\u2003", "\u200a", "\u2028", "\u2029", "\u202f", "\u205f", "\u3000", " \u00a0\t"}
 
 var keyPool = []string{
 	"a", "b", "c", "x", "y", "/a", "a/b", "a//b", "./a", "a/./b", "a/../b", "../a", "a/", "/a/b/", "//x",
-	"finalizedHeight", "/finalizedHeight", "finalizedHeight/", "genesis", "genesis/x", "genesis/initializedX",
+	"finalizedHeightX", "/finalizedHeight/x", "FinalizedHeight", "finalizedheight", "finalized", "genesis", "genesis/x", "genesis/initializedX",
 	"Genesis/initialized", "genesis/initialized/x", "genesis/stateroot2", "a b", "a:b", "k;", "k:1;", ".", "..", "/", "...", "a/..",
 	"\xe2\x80", "\xc2", "\xa0", "k\xe2\x80", "\xffk", "\u00e9", "\u200bz", "\u180ez",
 }
@@ -30,6 +31,7 @@ var badPool = []string{
 	"genesis/initialized=1", "/genesis/stateroot=zz", " genesis//initialized =1", "genesis/./stateroot=",
 	"a/../genesis/initialized=1", "/genesis/initialized/=x", "genesis/x/../stateroot=1", "\u2028/genesis/stateroot\u0085=q",
 	"\t\n", "k", "key:value", "\xff\xfe", "a;b",
+	"finalizedHeight=1", "/finalizedHeight=", "finalizedHeight/ = 12", "x/../finalizedHeight=7", "\u2003./finalizedHeight\u00a0=\u3000n",
 }
 
 type gen struct {
@@ -69,7 +71,8 @@ func (g *gen) val() string {
 }
 
 func (g *gen) goodTx() []byte {
-	// keys whose trimmed form is empty or reserved are not in keyPool; random keys may trim to "" -
+	// keys whose trimmed form is empty or reserved (genesis keys, finalizedHeight) are not in keyPool
+	// (they are in badPool); random keys may trim to "" -
 	// such a transaction is then simply a malformed one (the run side classifies, not the generator)
 	return []byte(g.pick(wsPool) + g.key() + g.pick(wsPool) + "=" + g.pick(wsPool) + g.val() + g.pick(wsPool))
 }
@@ -123,30 +126,48 @@ func (g *gen) getKey() string {
 	return g.pick(wsPool[:5]) + g.key()
 }
 
+func (g *gen) final() {
+	switch {
+	case g.r.Chance(10):
+		g.emit("final h=0")
+	case g.r.Chance(6):
+		g.emit("final h=%s", g.pick([]string{"18446744073709551615", "4294967296", "1000000", "1203"}))
+	default:
+		g.emit("final h=%d", 1+g.r.Intn(12))
+	}
+}
+
 func (g *gen) scenario(nops int, noFinal bool, badPct int) {
 	g.emit("reset")
+	if !noFinal && g.r.Chance(25) {
+		g.final() // before genesis
+	}
 	if g.r.Chance(70) {
 		g.emit("init")
+	}
+	if !noFinal && g.r.Chance(35) {
+		g.final() // before the first execution
 	}
 	for i := 0; i < nops; i++ {
 		k := g.r.Intn(100)
 		switch {
-		case k < 42:
+		case k < 40:
 			g.exec(g.r.Chance(badPct))
-		case k < 50:
+		case k < 47:
 			g.exec(g.r.Chance(badPct))
+			if !noFinal && g.r.Chance(30) {
+				g.final() // finalize between execution and re-execution
+			}
 			g.emit("reexec")
-		case k < 60:
+		case k < 61:
 			if noFinal {
 				g.exec(false)
-			} else if g.r.Chance(10) {
-				g.emit("final h=0")
 			} else {
-				g.emit("final h=%d", 1+g.r.Intn(12))
+				g.final()
 			}
-		case k < 68:
+		case k < 69:
 			g.emit("inject tx=%s", hx.Hex(g.goodTx()))
-		case k < 73:
+		case k < 74:
 			g.emit("gettxs")
 		case k < 83:
 			g.emit("init")
@@ -161,17 +182,29 @@ func (g *gen) scenario(nops int, noFinal bool, badPct int) {
 func genC15(r *hx.Rng, tier string, w io.Writer) {
 	g := &gen{r: r, w: w}
 	// ---- deliberate inputs (deterministic; printed on every run)
-	// the known finding, minimal: same executed txs, finalize before execution on b only
+	// the defect repaired by /repo 511b618, minimal: same executed txs, finalize before execution on b only
 	g.emit("reset")
 	g.emit("final h=1")
 	g.emit("exec txs=%s", hx.HexList([][]byte{[]byte("x=1")}))
-	// finalize after execution, re-convergence by a tx that writes the same key
+	// finalize after execution; the finalized height is a reserved entry: readable, not writable by a
+	// transaction (whatever the spelling, wherever in the block), kept over reopen, never in the root
 	g.emit("reset")
 	g.emit("init")
 	g.emit("exec txs=%s", hx.HexList([][]byte{[]byte("x=1")}))
 	g.emit("final h=7")
+	g.emit("get key=%s", hx.Hex([]byte("finalizedHeight")))
 	g.emit("exec txs=%s", hx.HexList([][]byte{[]byte("finalizedHeight=7")}))
+	g.emit("exec txs=%s", hx.HexList([][]byte{[]byte("y=2"), []byte("\u2003./finalizedHeight/ = 3")}))
+	g.emit("reexec")
+	g.emit("get key=%s", hx.Hex([]byte("/finalizedHeight")))
+	g.emit("get key=%s", hx.Hex([]byte("y")))
+	g.emit("final h=18446744073709551615")
+	g.emit("reopen")
+	g.emit("get key=%s", hx.Hex([]byte("/finalizedHeight")))
+	g.emit("exec txs=%s", hx.HexList([][]byte{[]byte("finalizedHeight/x=7"), []byte("FinalizedHeight=1")}))
 	g.emit("final h=7")
+	g.emit("final h=0")
+	g.emit("reexec")
 	g.emit("init")
 	// malformed positions, reserved spellings, staged-then-rejected
 	g.emit("reset")
@@ -206,7 +239,7 @@ func genC15(r *hx.Rng, tier string, w io.Writer) {
 		n = 500
 	}
 	for i := 0; i < n; i++ {
-		noFinal := i%2 == 0
+		noFinal := i%5 == 2
 		badPct := 12
 		if i%5 == 4 {
 			badPct = 55 // the malformed stream
